@@ -596,7 +596,9 @@ class G:
         if err == "pow":
             while True:
                 c = rand_dim(r)
-                e = r.choice([0.5, 1.5, 2.5, -0.5, 1 / 3, 2 / 3, 0.25, 0.1, 0.75, -1.5, 1.25])
+                # (also exponents that are merely NEAR a small rational: 0.3333 is not a third)
+                e = r.choice([0.5, 1.5, 2.5, -0.5, 1 / 3, 2 / 3, 0.25, 0.1, 0.75, -1.5, 1.25,
+                              0.3333, 0.33333333, 0.6667, 1.0001, 0.9999999, 0.49999, 2.000001, -1.00001])
                 ee = read_exponent(e)[0]
                 if any((k * ee).denominator != 1 for k in c):
                     break
